@@ -255,6 +255,27 @@ def scenarios(tier):
         add('Into/ref/' + tag, shape, [M('Into', [P('ty', ["&'static str", '&str'])], pin=True)],
             f={(vi, 1): [M('Into', [P('ty', ["&'static str", '&str'])], pin=True)] for vi in range(len(shape.variants))}, ftypes={(vi, 1): "&'static str" for vi in range(len(shape.variants))})
 
+    # ---- a trait that may be named several times (Into) among other traits: every order of the type-level entries in one list and split
+    for shape, tag in ((sn, 'sn'), (en, 'en')):
+        fm = {(vi, 1): [M('Into', [P('ty', ['u8'])], pin=True), M('Into', [P('ty', ['u16'])], pin=True), M('Into', [P('ty', ['u32'])], pin=True)] for vi in range(len(shape.variants))}
+        ft = {p: 'u8' for p in shape.positions()}
+        add('Into/among-others/2+2/' + tag, shape, [M('Into', [P('ty', ['u8'])], pin=True), M('Into', [P('ty', ['u16'])], pin=True), M('Debug'), M('Clone')],
+            f={k: v[:2] for k, v in fm.items()}, ftypes=ft)
+        add('Into/among-others/3+1/' + tag, shape, [M('Into', [P('ty', ['u8'])], pin=True), M('Into', [P('ty', ['u16'])], pin=True), M('Into', [P('ty', ['u32'])], pin=True), M('PartialEq')],
+            f=fm, ftypes=ft)
+        add('Into/among-others/2+1/' + tag, shape, [M('Into', [P('ty', ['u8'])], pin=True), M('Hash'), M('Into', [P('ty', ['u16'])], pin=True)], f={k: v[:2] for k, v in fm.items()}, ftypes=ft)
+
+    # ---- names that are raw identifiers (every spelling must keep the `r#`), at the type, variant and field level
+    for raw in ('r#type', 'r#struct'):
+        for shape, tag in ((sn, 'sn'), (st, 'st'), (en, 'en')):
+            add('Debug/rawname/%s/%s' % (raw, tag), shape, [M('Debug', [P('name', sp_name(raw))], whole=['Debug = %s' % raw, 'Debug = "%s"' % raw])])
+        add('Debug/rawname-variant/%s' % raw, en, [M('Debug')], v={0: [M('Debug', [P('name', sp_name(raw))], whole=['Debug = %s' % raw, 'Debug = "%s"' % raw])]})
+        add('Debug/rawname-variant-on/%s' % raw, en, [M('Debug', [P('name', sp_name(None, on=True))])],
+            v={1: [M('Debug', [P('name', sp_name(raw))], whole=['Debug = %s' % raw, 'Debug = "%s"' % raw])]})
+        for shape, tag, pos in ((sn, 'sn', (0, 1)), (en, 'en', (1, 0))):
+            add('Debug/rawname-field/%s/%s' % (raw, tag), shape, [M('Debug')], f={pos: [M('Debug', [P('name', sp_name(raw))], whole=['Debug = %s' % raw, 'Debug = "%s"' % raw])]})
+            add('Debug/rawname-field-method/%s/%s' % (raw, tag), shape, [M('Debug')], f={pos: [M('Debug', [P('name', sp_name(raw)), P('method', sp_method('fmt_m'))])]})
+
     # ---- method paths beyond plain `a::b`: generic arguments (turbofish), leading `::`, `crate` / `self` / `super` roots, raw segments
     paths = ['fmt_m::<u8>', 'a::Radix::<16, T>::fmt', '::a::b::f', 'crate::sup::f', 'self::f', 'super::g::f', 'a::r#fn', 'Vec::<Vec<T>>::len', "a::F::<'static, T>::f"]
     for trait in ('Debug', 'PartialEq', 'Hash', 'PartialOrd', 'Ord', 'Clone'):
